@@ -114,7 +114,7 @@ class C04(core.Check):
                                        'means:align', 'means:created-zone', 'order:ascending', 'order:descending',
                                        'order:interleaved', 'overlap:non-adjacent', 'expect:REJECT', 'expect:ACCEPT',
                                        'output:bin', 'output:nobin', 'output:both', 'window-excludes-the-overlap',
-                                       'means:macro-with-non-byte-steps', 'means:embedded-string', 'means:zerountil-behind-the-cursor', 'means:include-from-inside-a-zone', 'means:configured-GLOBAL-with-origin-above-its-start', 'embedded-string:two-byte-character', 'embedded-string:three-byte-character', 'embedded-string:cstr-ending-in-its-terminator', 'embedded-string:cstr-ending-in-its-terminator/configured', 'means:global-relative-org', 'unselected-origin-before-bytes']}
+                                       'means:macro-with-non-byte-steps', 'means:embedded-string', 'means:zerountil-behind-the-cursor', 'means:include-from-inside-a-zone', 'means:included-file-ends-in-another-zone', 'means:zone-resumed-after-a-backward-origin', 'means:configured-GLOBAL-with-origin-above-its-start', 'embedded-string:two-byte-character', 'embedded-string:three-byte-character', 'embedded-string:cstr-ending-in-its-terminator', 'embedded-string:cstr-ending-in-its-terminator/configured', 'means:global-relative-org', 'unselected-origin-before-bytes']}
 
     def build(self, rng, items, means_list=None, order=None, mute=None, out_mode=None):
         """items: [(addr, len)]"""
@@ -364,6 +364,48 @@ class C04(core.Check):
                    'meta': {'kind': kind_, 'M': {str(k): v for k, v in M_.items()}, 'end': end_,
                             'intervals': [[a_, 1] for a_ in sorted(M_)], 'out_mode': 'bin'},
                    'tags': sorted({'means:include-from-inside-a-zone', 'means:configured-GLOBAL-with-origin-above-its-start', 'expect:' + kind_, 'output:bin', 'order:ascending'})}
+        # a zone entered again with .memzone continues behind the line placed in it last - also when an origin had moved that
+        # line below bytes placed in the zone earlier: what then counts is what lies at that address, not the zone's highest use
+        base_z = ['.memzone ZL', '.org 8 "ZL"', '.byte $A1, $A2', '.org 2 "ZL"', '.byte $B1', '.org $20', '.byte $C1', '.memzone ZL', '.byte $D1']
+        M_z = {8: 0xA1, 9: 0xA2, 2: 0xB1, 0x20: 0xC1, 3: 0xD1}
+        base_g = ['.org $30', '.byte 1, 2', '.org $28', '.byte 3', '.memzone ZL', '.byte 4', '.memzone GLOBAL', '.byte 5']
+        M_g = {0x30: 1, 0x31: 2, 0x28: 3, 0: 4, 0x29: 5}
+        for k_, (main_, kind_, M_) in enumerate([
+                (base_z, 'ACCEPT', M_z), (base_z + ['.org 3', '.byte $E1'], 'REJECT', M_z), (base_z + ['.org 10', '.byte $E1'], 'ACCEPT', {**M_z, **{10: 0xE1}}),
+                (base_z + ['.byte $D2, $D3, $D4, $D5'], 'ACCEPT', {**M_z, **{4: 0xD2, 5: 0xD3, 6: 0xD4, 7: 0xD5}}),
+                (base_z + ['.byte $D2, $D3, $D4, $D5, $D6'], 'REJECT', M_z),
+                (base_g, 'ACCEPT', M_g), (base_g + ['.org $29', '.byte 6'], 'REJECT', M_g), (base_g + ['.org $32', '.byte 6'], 'ACCEPT', {**M_g, **{0x32: 6}}),
+                (base_g + ['.fill 6, 7'], 'ACCEPT', {**M_g, **{a_: 7 for a_ in range(0x2A, 0x30)}}), (base_g + ['.fill 7, 7'], 'REJECT', M_g)]):
+            end_ = 0x40
+            yield {'runs': [{'files': {fn_i: text_i, 'p.asm': '\n'.join(main_) + '\n'},
+                             'argv': ['compile', '-c', fn_i, 'p.asm', '-o', 'out.bin', '-e', str(end_)],
+                             'probes': ['steps'], 'step_limit': 300000}],
+                   'meta': {'kind': kind_, 'M': {str(k): v for k, v in M_.items()}, 'end': end_,
+                            'intervals': [[a_, 1] for a_ in sorted(M_)], 'out_mode': 'bin'},
+                   'tags': sorted({'means:zone-resumed-after-a-backward-origin', 'expect:' + kind_, 'output:bin', 'order:descending'})}
+        # an included file that ends in another zone than its includer hands nothing back: the includer's next line follows the
+        # includer's own last line, and collides with (or stays clear of) what lies there
+        for k_, (main_, inc_, kind_, M_) in enumerate([
+                (['.org $20', '.byte $A1', '#include "inc.asm"', '.byte $A2'], ['.memzone ZL', '.byte $C1'], 'ACCEPT', {0x20: 0xA1, 0: 0xC1, 0x21: 0xA2}),
+                (['.org $20', '.byte $A1', '#include "inc.asm"', '.byte $A2', '.org 1', '.byte $E1'], ['.memzone ZL', '.byte $C1'], 'ACCEPT',
+                 {0x20: 0xA1, 0: 0xC1, 0x21: 0xA2, 1: 0xE1}),
+                (['.org $20', '.byte $A1', '#include "inc.asm"', '.byte $A2', '.org $21', '.byte $E1'], ['.memzone ZL', '.byte $C1'], 'REJECT',
+                 {0x20: 0xA1, 0: 0xC1, 0x21: 0xA2}),
+                (['.org $20', '.byte $A1', '#include "inc.asm"', '.byte $A2', '.org $21', '.byte $E1'], ['.org 4 "ZL"', '.byte $C1, $C2'], 'REJECT',
+                 {0x20: 0xA1, 4: 0xC1, 5: 0xC2, 0x21: 0xA2}),
+                (['.org $20', '.byte $A1', '#include "inc.asm"', '.byte $A2', '.org 6', '.byte $E1'], ['.org 4 "ZL"', '.byte $C1, $C2'], 'ACCEPT',
+                 {0x20: 0xA1, 4: 0xC1, 5: 0xC2, 0x21: 0xA2, 6: 0xE1}),
+                (['.memzone ZL', '.byte $B1', '#include "inc.asm"', '.byte $B2', '.org $28', '.byte $E1'], ['.org $27', '.byte $C1'], 'ACCEPT',
+                 {0: 0xB1, 0x27: 0xC1, 1: 0xB2, 0x28: 0xE1}),
+                (['.memzone ZL', '.byte $B1', '#include "inc.asm"', '.byte $B2', '.org 1', '.byte $E1'], ['.org $27', '.byte $C1'], 'REJECT',
+                 {0: 0xB1, 0x27: 0xC1, 1: 0xB2})]):
+            end_ = 0x30
+            yield {'runs': [{'files': {fn_i: text_i, 'p.asm': '\n'.join(main_) + '\n', 'inc.asm': '\n'.join(inc_) + '\n'},
+                             'argv': ['compile', '-c', fn_i, 'p.asm', '-o', 'out.bin', '-e', str(end_)],
+                             'probes': ['steps'], 'step_limit': 300000}],
+                   'meta': {'kind': kind_, 'M': {str(k): v for k, v in M_.items()}, 'end': end_,
+                            'intervals': [[a_, 1] for a_ in sorted(M_)], 'out_mode': 'bin'},
+                   'tags': sorted({'means:included-file-ends-in-another-zone', 'expect:' + kind_, 'output:bin', 'order:ascending'})}
         # GLOBAL defined by the configuration together with a default origin above its start: the first bytes go to the origin
         for gs_, org_ in ((0x100, 0x120), (0x10, 0x18), (0, 0x40)):
             isa_o = gen_prog.layout_isa(16, global_zone=(gs_, 0x7FFF), origin=org_)
